@@ -89,8 +89,35 @@ def guard_entries_with_atoms(fn, node):
         if g["pol"] is None:
             continue
         for a, p in hirq.atoms(g["cond"], g["pol"]):
-            out.append((g, a, p))
+            out.append((g, hoisted_test(fn, a, g["node"]), p))
     return out
+
+
+def hoisted_test(fn, a, at):
+    """`let t = <test>; if t {..}`: the test itself, when t is an immutable local whose `let` is the statement directly
+    before the `if` (tracing in between allowed); else a unchanged."""
+    b = local_of(a, NO_T)
+    if b is None:
+        return a
+    d = hirq.single_def(fn, b)
+    let = let_of(fn, b)
+    blk = fn.parent(at)
+    if d is None or let is None or blk is None or blk.get("k") != "block":
+        return a
+    seq = list(blk["st"]) + ([blk["tail"]] if "tail" in blk else [])
+    pos = [j for j, x in enumerate(seq) if x is at]
+    if not pos:
+        return a
+    between = []
+    for x in reversed(seq[:pos[0]]):
+        if x is let:
+            return peel(d, NO_T) if all(x2.get("k") in ("call", "mcall") and is_trace_node(x2) for x2 in between) else a
+        between.append(x)
+    return a
+
+
+def idx_of(fn, n):
+    return hirq.order_index(fn)[id(n)]
 
 
 def plit_str(pat):
@@ -388,11 +415,17 @@ def run(ctx):
         others = [(c, f.path) for f in F.fn_list if f.hir is not None and f.path != ml.path for c in f.calls(ALG + "microstep")]
         ctx.ob("R03.5", "microstep|called only from mainEventLoop", not others, "", "%d call(s) elsewhere: %s" % (len(others), [p for _, p in others][:3]))
         for i, c in enumerate(ms):
-            base, chain = method_chain(ml, c["a"][1], follow_lets=False)
+            base, chain = method_chain(ml, c["a"][1])
             b = local_of(base, NO_T)
             names = [m for m, _ in chain]
-            tested = [is_set_isempty(a) for g, a, pol in guard_entries_with_atoms(ml, c) if pol is False and is_set_isempty(a) is not None]
-            ok = b is not None and names == ["toList"] and b in tested
+            gs = [(g, is_set_isempty(a)) for g, a, pol in guard_entries_with_atoms(ml, c) if pol is False and is_set_isempty(a) is not None]
+            tested = [x for _, x in gs]
+            # a hoisted `let l = set.toList()` must be taken after the test (inside the guarded region)
+            arg_local = local_of(c["a"][1], NO_T)
+            hoist = let_of(ml, arg_local) if arg_local is not None and arg_local != b else None
+            hoist_ok = hoist is None or any(idx_of(ml, g["node"]) < idx_of(ml, hoist) and hirq.enclosing_loops(ml, hoist) == hirq.enclosing_loops(ml, c)
+                                            for g, x in gs if x == b)
+            ok = b is not None and names == ["toList"] and b in tested and hoist_ok
             ctx.ob("R03.5", site_key(ml, "microstep under a non-empty transition set", i), ok, line_of(c),
                    "argument %s; guarded by !isEmpty() of the same set: %s" % (describe(c["a"][1]), b in tested))
             if b is not None:
@@ -427,7 +460,7 @@ def run(ctx):
         for i, a in enumerate(asg):
             rhs = a["r"] if a.get("k") == "assign" else a["init"]
             src = expr_of(ml, rhs, hirq.TRANSPARENT)
-            from_recv = src is recv or any(x is recv for x in hirq.walk(src)) and src.get("k") == "mcall" and src["m"] in ("unwrap", "expect")
+            from_recv = src is recv
             in_loop = hirq.enclosing_loops(ml, a)[:1] == [rl]
             leaves = a.get("k") == "assign" and leaves_loop_after(ml, a, rl)
             ctx.ob("R03.6", site_key(ml, "assigned from recv and leaves the receive loop", i), from_recv and in_loop and leaves, line_of(a),
